@@ -25,6 +25,7 @@ extern int hx_tier;
 extern int hx_worker_id;
 extern char hx_workdir[300]; /* per-worker scratch directory (cwd of every execution) */
 
+void hx_worker_prepare(void);
 void hx_begin(void); /* after vk_cfg has been filled: prepare descriptors, cwd, environ, vk */
 void hx_desc(const char *fmt, ...) __attribute__((format(printf, 1, 2)));
 
